@@ -60,6 +60,9 @@ def gen_literals(quick, seed):
             v = 10 ** p + d
             if v >= 0:
                 nums.add(str(v))
+    # hex digits that look like parts of other spellings (e / E as in an exponent, x, leading zeros, mixed case)
+    nums |= {"0xe", "0xE", "0x1e5", "0X3E8", "0xdeadbeef", "0xfe", "0x7ffffffffffffffe", "0x123456789abcdef", "0xABCDEF0", "0x0e0", "0x00", "0x1E1",
+             "0xe1", "0x1e", "0xeee", "1e1", "1E1", "0e1", "0x1p3", "0x.8"}
     nums |= {"0", "00", "007", "08", "09", "017", "0777", "0x", "0X", "0x0", "0xabcdef", "0xABCDEF", "0x7fffffffffffffff", "0x8000000000000000",
              "0xffffffffffffffff", "0x10000000000000000", "9223372036854775807", "9223372036854775808", "18446744073709551615",
              "18446744073709551617", "9007199254740993", "9007199254740993.0", "9007199254740992.5", "1.5", "5.", "0.1", "0.3", "1e3", "1E3",
